@@ -276,11 +276,11 @@ func c07Run(w *core.W) {
 	if !c07Exprs(w, emit) {
 		return
 	}
-	// string literals: every text of at most 3 characters over {a, quote, line break, blank, ;, {} (the two documented
+	// string literals: every text of at most 3 characters over {a, quote, line break, blank, ;, {, a two-byte and a three-byte character} (the two documented
 	// escapes and the characters that mean something outside a string) in five positions
 	w.Family("string-literals")
 	{
-		chars := []string{"a", "\"", "\n", " ", ";", "{"}
+		chars := []string{"a", "\"", "\n", " ", ";", "{", "é", "語"}
 		texts := []string{""}
 		for n, level := 0, []string{""}; n < 3; n++ {
 			next := []string{}
